@@ -173,7 +173,10 @@ def run(ctx):
     # shard into subprocesses
     from concurrent.futures import ThreadPoolExecutor
     k = min(NCPU, 12)
-    chunks = [cases[i::k] for i in range(k)]
+    # the soak is one long case: a subprocess of its own, started first
+    soaks = [c for c in cases if c[3] == 'soak']
+    rest = [c for c in cases if c[3] != 'soak']
+    chunks = ([soaks] if soaks else []) + [rest[i::k] for i in range(k)]
     def go(chunk):
         src = SCRIPT % {'repo': REPO, 'cases': chunk}
         try:
@@ -182,7 +185,7 @@ def run(ctx):
             return p.returncode, p.stdout, p.stderr
         except subprocess.TimeoutExpired as e:
             return 'timeout', (e.stdout or b'').decode() if isinstance(e.stdout, bytes) else (e.stdout or ''), ''
-    with ThreadPoolExecutor(k) as ex:
+    with ThreadPoolExecutor(k + 1) as ex:
         outs = list(ex.map(go, chunks))
     for chunk, (rc, out, err) in zip(chunks, outs):
         lines = [json.loads(l) for l in out.strip().split('\n') if l.strip()]
